@@ -379,6 +379,13 @@ func init() {
 	check.Replayers["enum:C13/fault"] = faultReplayer(c13Oracle)
 	check.Replayers["enum:C15/fault"] = faultReplayer(c15Oracle)
 	check.Replayers["enum:C17/fault"] = faultReplayer(c17Oracle)
+	check.Replayers["enum:C17/labels"] = func(f *check.Failure) (string, string) {
+		o := core.RunEngine(f.Case, storeFor(f.Case))
+		if len(o.LabelsModified) > 0 {
+			return "storage-data-modified", strings.Join(o.LabelsModified, "; ")
+		}
+		return "", ""
+	}
 	check.Replayers["enum:C14/cancel"] = faultReplayer(c14EnumOracle)
 	check.Replayers["enum:C14/cancel+storectx"] = faultReplayer(c14EnumOracle)
 	check.Replayers["enum:C14/qcancel+storectx"] = faultReplayer(c14EnumOracle)
@@ -395,6 +402,7 @@ func init() {
 	check.Register("C17/fault", func(c *check.Ctx) {
 		enumerateFaults(c, "C17", "C17/fault", allKinds, []string{"error", "panic-runtime", "cancel"}, c17Oracle, windows, false)
 		c17Histories(c)
+		c17Labels(c)
 	})
 	check.Register("C14/cancel", func(c *check.Ctx) {
 		enumerateFaults(c, "C14", "C14/cancel", allKinds, []string{"cancel", "block"}, c14EnumOracle, windows, true)
@@ -456,6 +464,62 @@ func c15Pairs(c *check.Ctx) {
 // c17Histories: sequences of 3 queries over a storage that hands out the very same
 // label slices on every call; the labels must stay untouched. Also: a query that is
 // created but never executed opens no querier.
+// c17Labels: every query of the enumerated grammar, and every operator x matching x bool
+// over plain selectors, runs once over a storage that hands out the very same label
+// slices on every call; afterwards every stored label set must be unchanged.
+func c17Labels(c *check.Ctx) {
+	f := gen.FullDepth1()
+	k := gen.KDepth(2)
+	qs := append([]string(nil), f.List...)
+	for _, q := range k.List {
+		if !f.Has(q) {
+			qs = append(qs, q)
+		}
+	}
+	ms := []string{"on (l) group_left (m)", "on (l) group_right (m)", "ignoring (m) group_left (m)", "on (l) group_left (l)", "on (l) group_left (m, z)", "on (l, m) group_left (l)",
+		"ignoring (m) group_right (l, m)", "on (l) group_left (A)", "on (m) group_right (l)"}
+	for _, pr := range [][2]string{{"a", "b"}, {"b", "a"}, {"a", "a"}, {`a{m="1"}`, "a"}} {
+		for _, q := range gen.BinsOver(pr[0], pr[1], gen.BinOps, ms, true) {
+			if cq := gen.Canon(q); cq != "" {
+				qs = append(qs, cq)
+			}
+		}
+	}
+	c.Rep.Bounds["C17/labels:queries"] = len(qs)
+	for _, d := range []string{"D1", "D5"} {
+		data := dataset(d)
+		for _, q := range qs {
+			for _, w := range []core.Window{core.Range(10000, 30000, 12), core.Instant(45000)} {
+				c.Rep.Transitions++
+				if !c.Mine() {
+					continue
+				}
+				if c.Expired() {
+					return
+				}
+				cs := &core.Case{Q: q, Data: data, W: w, O: core.Opts{Optimizers: "none"}, Note: d + " shared labels", ShareLabels: true}
+				o := core.RunEngine(cs, storeFor(cs))
+				if o.Res.CreateErr != "" {
+					continue
+				}
+				c.Rep.States++
+				c.Rep.Evaluations++
+				c.Rep.Traces++
+				if !o.Res.Failed() && o.Res.NPoints() > 0 {
+					c.Rep.Nontrivial++
+				}
+				if len(o.LabelsModified) == 0 {
+					c.Rep.Outcomes["C17/labels:ok"]++
+					continue
+				}
+				c.Rep.Outcomes["C17/labels:modified"]++
+				cp := *cs
+				c.Fail(check.Failure{Prop: "C17", Kind: "enum", Sub: "C17/labels", Symptom: "storage-data-modified", Detail: "storage label sets changed by the query: " + strings.Join(o.LabelsModified, "; "), Case: &cp})
+			}
+		}
+	}
+}
+
 func c17Histories(c *check.Ctx) {
 	data := faultData()
 	qs := []string{`a`, `-a`, `abs(a)`, `rate(a[1m])`, `last_over_time(a[1m])`, `sum by (l) (a)`, `sum without (l) (a)`, `a + b`, `a + on (l) group_left b`, `a == bool 1`,
